@@ -165,16 +165,48 @@ func genRecover(repo string) (string, error) {
 		return "", fmt.Errorf("%s: loop header incomplete (only three-clause loops are understood)", site)
 	}
 	hdr := fmt.Sprintf("for %s; %s; %s", exprString(fset, loop.Init), exprString(fset, loop.Cond), exprString(fset, loop.Post))
-	init, ok := loop.Init.(*ast.AssignStmt)
-	if !ok || init.Tok != token.DEFINE || len(init.Lhs) != 1 || len(init.Rhs) != 1 {
-		return "", fmt.Errorf("%s: loop init `%s` is not `<var> := <expr>`", site, exprString(fset, loop.Init))
+	// the loop variable is the one the post statement increments; the init clause may define further names in parallel
+	// (`for h, last := a, b; h <= last; h++`): each is resolved to its own expression
+	var postVar *ast.Ident
+	switch s := loop.Post.(type) {
+	case *ast.IncDecStmt:
+		postVar, _ = s.X.(*ast.Ident)
+	case *ast.AssignStmt:
+		if len(s.Lhs) == 1 {
+			postVar, _ = s.Lhs[0].(*ast.Ident)
+		}
 	}
-	ivar, ok := init.Lhs[0].(*ast.Ident)
-	if !ok {
-		return "", fmt.Errorf("%s: loop variable not an identifier", site)
+	if postVar == nil {
+		return "", fmt.Errorf("%s: loop post statement `%s` does not update a single variable", site, exprString(fset, loop.Post))
+	}
+	init, ok := loop.Init.(*ast.AssignStmt)
+	if !ok || init.Tok != token.DEFINE || len(init.Lhs) != len(init.Rhs) || len(init.Lhs) == 0 {
+		return "", fmt.Errorf("%s: loop init `%s` is not `<vars> := <exprs>` with one expression per variable", site, exprString(fset, loop.Init))
+	}
+	initDefs := map[string]ast.Expr{}
+	var ivar *ast.Ident
+	for i, l := range init.Lhs {
+		id, ok := l.(*ast.Ident)
+		if !ok {
+			return "", fmt.Errorf("%s: loop init defines a non-identifier", site)
+		}
+		if id.Name == postVar.Name {
+			ivar = id
+		}
+		initDefs[id.Name] = init.Rhs[i]
+	}
+	if ivar == nil {
+		return "", fmt.Errorf("%s: the variable `%s` updated by the post statement is not defined by the loop init `%s`", site, postVar.Name, exprString(fset, loop.Init))
 	}
 	isVar := func(e ast.Expr) bool { id, ok := e.(*ast.Ident); return ok && id.Name == ivar.Name }
-	lo, err := recoverAffine(fset, inline(fn, init.Rhs[0]), isHeight("state"), "<state-store height>")
+	// the other names of the init clause are evaluated once before the loop: substitute them in the bound
+	others := map[string]ast.Expr{}
+	for n, e := range initDefs {
+		if n != ivar.Name {
+			others[n] = inline(fn, e)
+		}
+	}
+	lo, err := recoverAffine(fset, inline(fn, initDefs[ivar.Name]), isHeight("state"), "<state-store height>")
 	if err != nil {
 		return "", fmt.Errorf("%s: loop init: %v", site, err)
 	}
@@ -192,7 +224,7 @@ func genRecover(repo string) (string, error) {
 	default:
 		return "", fmt.Errorf("%s: loop condition `%s` is not `%s < / <= <expr>` (or mirrored)", site, exprString(fset, loop.Cond), ivar.Name)
 	}
-	hi, err := recoverAffine(fset, inline(fn, bound), isHeight("block"), "<block-store height>")
+	hi, err := recoverAffine(fset, ledgersrc.SubstIdents(inline(fn, bound), others), isHeight("block"), "<block-store height>")
 	if err != nil {
 		return "", fmt.Errorf("%s: loop condition: %v", site, err)
 	}
@@ -222,7 +254,7 @@ func genRecover(repo string) (string, error) {
 	bad := ""
 	ast.Inspect(loop.Body, func(n ast.Node) bool {
 		check := func(e ast.Expr) {
-			if id, ok := e.(*ast.Ident); ok && (id.Name == ivar.Name || heightVar[id.Name] != "") {
+			if id, ok := e.(*ast.Ident); ok && (id.Name == ivar.Name || heightVar[id.Name] != "" || others[id.Name] != nil) {
 				bad = id.Name
 			}
 		}
